@@ -40,16 +40,17 @@ func propC19(c *Ctx) {
 				if fa.Field.Name() != fld || !typeNamed(fa.Base.Type(), typ) {
 					continue
 				}
-				n := FuncName(fn)
-				if seen[n] {
-					continue
+				for _, n := range c.Owners(fn) { // a helper extracted later stands for its callers (inline.go)
+					if seen[n] {
+						continue
+					}
+					seen[n] = true
+					ok := false
+					for _, o := range owners[f] {
+						ok = ok || o == n
+					}
+					c.Check(ok, z1, f+"/in:"+n, c.pos(fa.Instr), "plain field used by its owner", "plain (unsynchronised) field "+f+" used outside {"+strings.Join(owners[f], ", ")+"}: the sleeper-side ownership argument no longer covers it")
 				}
-				seen[n] = true
-				ok := false
-				for _, o := range owners[f] {
-					ok = ok || o == n
-				}
-				c.Check(ok, z1, f+"/in:"+n, c.pos(fa.Instr), "plain field used by its owner", "plain (unsynchronised) field "+f+" used outside {"+strings.Join(owners[f], ", ")+"}: the sleeper-side ownership argument no longer covers it")
 			}
 		}
 	}
